@@ -47,7 +47,7 @@ def run(chk):
         for l in sorted(keys)[::max(1, len(keys) // 3)][:3]:
             chk.sample('os alloc/free: ' + l)
         # ---- oracle
-        rounds = 12 if thorough else 4
+        rounds = 12 if thorough else 6
         jobs = []
         for sd in (range(chk.seed, chk.seed + (3 if thorough else 1))):
             for w in range(5):
